@@ -111,6 +111,12 @@ func newTypedArshalers[Coder any](as ...*typedArshalers[Coder]) *typedArshalers[
 	return &a
 }
 
+// handlesAny reports whether any function applies to one of the Go types
+// used to represent arbitrary JSON. A nil receiver is an empty list.
+func (a *typedArshalers[Coder]) handlesAny() bool {
+	return a != nil && a.fromAny
+}
+
 func (a *typedArshalers[Coder]) lookup(fnc func(*Coder, addressableValue, *jsonopts.Struct) error, t reflect.Type) (func(*Coder, addressableValue, *jsonopts.Struct) error, bool) {
 	if a == nil {
 		return fnc, false
